@@ -294,11 +294,169 @@ def deductive(rep: Report, tier):
                     return [("returns", True), ("T_X_eq_B_up_to_1e-30_regularisation", sand(*conds))]
                 run_case(rep, P, S + fn, f"n{n}_rhs{k}", setup_d, post_d, lib=Library("idx"), clauses=["returns", "T_X_eq_B_up_to_1e-30_regularisation"],
                          scope=f"shape-bounded(n={n}, right-hand sides={k}; all entries)", replay=replay_solves, timeout_s=60, site_obligations=False, algebra=True)
+    dense_substitution_all_n(rep)
     # regularisation size: 1 - theta <= 1e-30 / |t|^2
     d = z3.Real("d")
     v = smt.prove([d > 0], 1 - d / (d + z3.RealVal("1/1000000000000000000000000000000")) <= z3.RealVal("1/1000000000000000000000000000000") / d, 10)
     rep.add(Obligation(f"{P}.lemma.regularisation_bound", "spec", "all-shapes", v.status, v.backend, v.secs, v.model, kind="lemma"))
     rep.canary("C16.canary.left_vs_right_inverse", smt.prove([], z3.And(*[zr(a) == zr(b) for a, b in zip(qham(x1, x2), qham(x2, x1))]), 5).status == smt.REFUTED)
+
+
+def dense_substitution_all_n(rep: Report):
+    """_solve_lower_triangular_quat / _solve_upper_triangular_quat for ALL n and ALL numbers of right-hand sides, by loop
+    invariants over ghost functions:
+        XF(r, c)      the value row r of the solution receives (uninterpreted; pinned by the defining axiom below)
+        SF(i, j, c)   the partial sum  sum_{j' visited before j} T[i, j'] XF(j', c)   (unfolding axiom per step)
+      outer loop   rows already processed hold XF, the others are still zero (frame)
+      inner loop   acc[0, c] == SF(i, j, c)
+      column loop  row i holds XF in the columns already written
+      defining axiom  XF(i, c) == conj(t_ii)/(|t_ii|^2 + 1e-30) * (B[i, c] - SF(i, <all off-diagonal j>, c))
+    so the returned X satisfies the substitution recurrence row by row; with lemma.regularisation_bound this is T X = B up
+    to the 1e-30 regularisation.  The ghost functions are a definitional extension (recursion on the row order)."""
+    from ..interp import LoopRule
+
+    for lower in (True, False):
+        fn = "_solve_lower_triangular_quat" if lower else "_solve_upper_triangular_quat"
+        QN = S + fn
+        Tname = "L" if lower else "U"
+
+        def ghosts(ctx):
+            g = ctx.ghost
+            if "XF" not in g:
+                g["XF"] = [z3.Function(f"XF{c}", z3.IntSort(), z3.IntSort(), z3.RealSort()) for c in range(4)]
+                g["SF"] = [z3.Function(f"SF{c}", z3.IntSort(), z3.IntSort(), z3.IntSort(), z3.RealSort()) for c in range(4)]
+            return g
+
+        def XFq(ctx, r, c):
+            g = ghosts(ctx)
+            return ix.QScal(*[SReal.mk(f(SInt.lift(r), SInt.lift(c))) for f in g["XF"]])
+
+        def SFq(ctx, i, j, c):
+            g = ghosts(ctx)
+            return ix.QScal(*[SReal.mk(f(SInt.lift(i), SInt.lift(j), SInt.lift(c))) for f in g["SF"]])
+
+        def dinv(Tm, i):
+            d = Tm.at(i, i)
+            den = d.norm2() + Fraction(1, 10 ** 30)
+            return ix.QScal(d.c[0], -d.c[1], -d.c[2], -d.c[3]) * (1 / den)
+
+        def j_first(i, n):          # first j of the inner loop, and the j after the last one
+            return (0, i) if lower else (i + 1, n)
+
+        def processed(r, i, n):     # row r has been processed before the outer iteration for row i
+            return (r < i) if lower else (r > i)
+
+        class Outer(LoopRule):
+            modifies = ("X",)
+
+            def closed(self, fr, i_done):
+                c = cur()
+                n = fr.vars["n"]
+                return lambda vi: ix.ite(i_done(vi[0]), XFq(c, vi[0], vi[1]), ix.QScal(Fraction(0)))
+
+            def row_of(self, fr, k):
+                # ascending loop: row index == k; descending range(n-1,-1,-1): the interpreter hands k = row index too
+                return k
+
+            def check(self, fr, k_next, phase):
+                c = cur()
+                X, n = fr.vars["X"], fr.vars["n"]
+                want = self.closed(fr, lambda r: processed(r, k_next, n))
+                cond, idx = ix.pointwise_eq(c, X, want)
+                c.require(f"inv.{phase}", cond, "processed rows hold XF, the others are still zero", key=f"{fn}.outer.inv.{phase}")
+
+            def establish(self, it, fr, start):
+                self.check(fr, start, "establish")
+
+            def havoc(self, it, fr, k):
+                from ..rules import _set_whole
+                n = fr.vars["n"]
+                _set_whole(fr.vars["X"], self.closed(fr, lambda r: processed(r, k, n)))
+
+            def preserve(self, it, fr, k):
+                self.check(fr, (k + 1) if lower else (k - 1), "preserve")
+
+        class Inner(LoopRule):
+            modifies = ("acc",)
+
+            def closed(self, fr, j):
+                c = cur()
+                i = fr.vars["i"]
+                j0, _ = j_first(i, fr.vars["n"])
+                return lambda vi: ix.ite(SBool.mk(SInt.lift(j) == SInt.lift(j0)), ix.QScal(Fraction(0)), SFq(c, i, j, vi[1]))
+
+            def establish(self, it, fr, start):
+                c = cur()
+                acc = fr.vars["acc"]
+                cond, idx = ix.pointwise_eq(c, acc, self.closed(fr, start))
+                c.require("inv.establish", cond, "acc equals the (empty) partial sum at the first off-diagonal column of the spec", key=f"{fn}.inner.inv.establish")
+
+            def havoc(self, it, fr, j):
+                fr.vars["acc"] = ix.IArr.from_fn([1, fr.vars["k"]], self.closed(fr, j), quat=True)
+
+            def preserve(self, it, fr, j):
+                c = cur()
+                i, Tm, X = fr.vars["i"], fr.vars[Tname], fr.vars["X"]
+                acc = fr.vars["acc"]
+                idx = ix.fresh_indices(c, acc.vshape, "s")
+                col = idx[1]
+                j0, _ = j_first(i, fr.vars["n"])
+                prev = ix.ite(SBool.mk(SInt.lift(j) == SInt.lift(j0)), ix.QScal(Fraction(0)), SFq(c, i, j, col))
+                # unfolding axiom of the ghost sum at (i, j, col)
+                c.assume(ix.scal_eq(SFq(c, i, j + 1, col), prev + Tm.at(i, j) * XFq(c, j, col)))
+                c.require("inv.preserve", ix.scal_eq(acc.at(*idx), SFq(c, i, j + 1, col)), "acc[0, c] is the partial sum after column j", key=f"{fn}.inner.inv.preserve")
+
+        class Cols(LoopRule):
+            modifies = ("X",)
+
+            def closed(self, fr, col_done):
+                c = cur()
+                i, n = fr.vars["i"], fr.vars["n"]
+                return lambda vi: ix.ite(processed(vi[0], i, n), XFq(c, vi[0], vi[1]),
+                                         ix.ite(sand(SBool.mk(SInt.lift(vi[0]) == SInt.lift(i)), vi[1] < col_done), XFq(c, vi[0], vi[1]), ix.QScal(Fraction(0))))
+
+            def check(self, fr, col, phase):
+                c = cur()
+                cond, idx = ix.pointwise_eq(c, fr.vars["X"], self.closed(fr, col))
+                c.require(f"inv.{phase}", cond, "row i holds XF in the columns written so far; nothing else changed", key=f"{fn}.cols.inv.{phase}")
+
+            def establish(self, it, fr, start):
+                self.check(fr, start, "establish")
+
+            def havoc(self, it, fr, col):
+                from ..rules import _set_whole
+                _set_whole(fr.vars["X"], self.closed(fr, col))
+
+            def preserve(self, it, fr, col):
+                c = cur()
+                i, n, Tm, B = fr.vars["i"], fr.vars["n"], fr.vars[Tname], fr.vars["B"]
+                j0, j1 = j_first(i, n)
+                total = ix.ite(SBool.mk(SInt.lift(j1) == SInt.lift(j0)), ix.QScal(Fraction(0)), SFq(c, i, j1, col))
+                # defining axiom of XF at (i, col)
+                c.assume(ix.scal_eq(XFq(c, i, col), dinv(Tm, i) * (B.at(i, col) - total)))
+                self.check(fr, col + 1, "preserve")
+
+        def setup(I, ctx, lower=lower):
+            n, k = dims(ctx, "n", "k")
+            Tm = ix.input_array("T", [n, n], quat=True)
+            B = ix.input_array("B", [n, k], quat=True)
+            return [Tm, B], {}, (Tm, B, n, k)
+
+        def post(I, ctx, outcome, val, aux):
+            Tm, B, n, k = aux
+            if outcome != "return" or not isinstance(val, ix.IArr):
+                return [("returns_array", False)]
+            c = ctx
+            (i0, c0) = ix.fresh_indices(ctx, [n, k], "w")
+            j0, j1 = j_first(i0, n)
+            total = ix.ite(SBool.mk(SInt.lift(j1) == SInt.lift(j0)), ix.QScal(Fraction(0)), SFq(ctx, i0, j1, c0))
+            ctx.assume(ix.scal_eq(XFq(ctx, i0, c0), dinv(Tm, i0) * (B.at(i0, c0) - total)))      # the same defining axiom, at the witness
+            return [("returns_array", True), ("shape", sand(val.vshape[0] == n, val.vshape[1] == k)),
+                    ("every_row_satisfies_the_substitution_recurrence", ix.scal_eq(val.at(i0, c0), dinv(Tm, i0) * (B.at(i0, c0) - total)))]
+        from .c01 import dims
+        run_case(rep, P, QN, "all_n", setup, post, lib=Library("idx"),
+                 loop_rules={(QN, 0): Outer(), (QN, 1): Inner(), (QN, 2): Cols()},
+                 clauses=["returns_array", "shape", "every_row_satisfies_the_substitution_recurrence"], replay=replay_solves, timeout_s=60)
 
 
 def ssqrt_expr(vals):
